@@ -1402,62 +1402,180 @@ func locBase(v ssa.Value) ssa.Value {
 	}
 }
 
-// ruleC12Pair: the resolved tree's Files map and FileOrder slice are updated together.
+// ruleC12Pair: the resolved tree's Files map and FileOrder slice are updated together.  On SSA: per function of
+// the workspace package, the membership events on the workspace's own tree (not on a fresh copy handed out as a
+// snapshot) are classified - Files: map update / delete; FileOrder: a store whose value appends an element that
+// does not come from the old list (growth) or is assembled from elements of the old list only (removal), wherever
+// the list manipulation lives (helpers are entered with their parameters bound).
 func ruleC12Pair(c *Ctx) {
-	pk := c.P.ByRel["internal/workspace"]
-	info := pk.TypesInfo
-	n := 0
-	for _, f := range pk.Syntax {
-		for _, d := range f.Decls {
-			fd, ok := d.(*ast.FuncDecl)
-			if !ok || fd.Body == nil {
-				continue
+	wpk := c.P.SSAPkg("internal/workspace")
+	isTreeField := func(v ssa.Value, name string) (*ssa.FieldAddr, bool) {
+		fa, ok := v.(*ssa.FieldAddr)
+		if !ok {
+			return nil, false
+		}
+		pt, ok := fa.X.Type().Underlying().(*types.Pointer)
+		if !ok || !typeHasSuffix(pt.Elem(), "include.ResolvedJournal") || fieldVarOfAddr(fa).Name() != name {
+			return nil, false
+		}
+		return fa, true
+	}
+	// the tree pointer is the workspace's own (loaded from a struct field / a parameter), not a fresh journal
+	ownTree := func(ptr ssa.Value) bool {
+		switch x := ptr.(type) {
+		case *ssa.Call, *ssa.Alloc:
+			return false
+		case *ssa.Phi:
+			for _, e := range x.Edges {
+				if _, isCall := e.(*ssa.Call); isCall {
+					return false
+				}
 			}
-			var filesAdd, filesDel, orderAdd, orderDel int
-			ast.Inspect(fd.Body, func(x ast.Node) bool {
-				switch s := x.(type) {
-				case *ast.AssignStmt:
-					for i, l := range s.Lhs {
-						if ix, ok := ast.Unparen(l).(*ast.IndexExpr); ok {
-							if se, ok := ast.Unparen(ix.X).(*ast.SelectorExpr); ok && se.Sel.Name == "Files" && typeHasSuffix(info.TypeOf(se.X), "include.ResolvedJournal") {
-								filesAdd++
-							}
+		}
+		return true
+	}
+	readsOldOrder := func(v ssa.Value) bool {
+		for w := range backSlice(v) {
+			if _, ok := isTreeField(w, "FileOrder"); ok {
+				return true
+			}
+		}
+		return false
+	}
+	n := 0
+	for _, f := range c.P.ModuleFuncs() {
+		top := f
+		for top.Parent() != nil {
+			top = top.Parent()
+		}
+		if top.Pkg != wpk {
+			continue
+		}
+		var filesAdd, filesDel, orderAdd, orderDel int
+		for _, b := range f.Blocks {
+			for _, ins := range b.Instrs {
+				switch x := ins.(type) {
+				case *ssa.MapUpdate:
+					if ld, ok := x.Map.(*ssa.UnOp); ok && ld.Op == token.MUL {
+						if fa, ok := isTreeField(ld.X, "Files"); ok && ownTree(fa.X) {
+							filesAdd++
 						}
-						if se, ok := ast.Unparen(l).(*ast.SelectorExpr); ok && se.Sel.Name == "FileOrder" && typeHasSuffix(info.TypeOf(se.X), "include.ResolvedJournal") && i < len(s.Rhs) {
-							r := strings.ToLower(exprStr(c.P.Fset, s.Rhs[i]))
-							if strings.Contains(r, "remove") || strings.Contains(r, "filter") || strings.Contains(r, "kept") {
-								orderDel++
-							} else if strings.Contains(r, "append([]string(nil)") {
-								// snapshot copy
-							} else {
-								orderAdd++
+					}
+				case *ssa.Call:
+					if bi, ok := x.Call.Value.(*ssa.Builtin); ok && bi.Name() == "delete" && len(x.Call.Args) == 2 {
+						if ld, ok := x.Call.Args[0].(*ssa.UnOp); ok && ld.Op == token.MUL {
+							if fa, ok := isTreeField(ld.X, "Files"); ok && ownTree(fa.X) {
+								filesDel++
 							}
 						}
 					}
-				case *ast.CallExpr:
-					if identOf(s.Fun).Name == "delete" && len(s.Args) == 2 {
-						if se, ok := ast.Unparen(s.Args[0]).(*ast.SelectorExpr); ok && se.Sel.Name == "Files" && typeHasSuffix(info.TypeOf(se.X), "include.ResolvedJournal") {
-							filesDel++
+				case *ssa.Store:
+					fa, ok := isTreeField(x.Addr, "FileOrder")
+					if !ok || !ownTree(fa.X) {
+						continue
+					}
+					// the appends that build the stored list itself (not those behind scalar operands such as the path)
+					grows, shrinks := false, false
+					apps := listBuilders(x.Val, nil, 0, map[ssa.Value]bool{})
+					for _, call := range apps {
+						if sl, ok := call.Call.Args[1].(*ssa.Slice); ok {
+							if arr, ok := sl.X.(*ssa.Alloc); ok {
+								// append(s, e1, e2...): the elements stored into the fresh array
+								for _, r := range *arr.Referrers() {
+									ia, ok := r.(*ssa.IndexAddr)
+									if !ok {
+										continue
+									}
+									for _, r2 := range *ia.Referrers() {
+										if st, ok := r2.(*ssa.Store); ok {
+											if sliceOfWithStack(st.Val, call, x.Val) {
+												shrinks = true
+											} else {
+												grows = true
+											}
+										}
+									}
+								}
+								continue
+							}
 						}
+						// append(a, b...): a spread of an existing list
+						if readsOldOrderVia(call.Call.Args[1], x.Val) {
+							shrinks = true
+						} else {
+							grows = true
+						}
+					}
+					if len(apps) == 0 {
+						// a re-slice or another value derived from the old list: elements are dropped at most
+						if readsOldOrder(x.Val) {
+							shrinks = true
+						} else {
+							grows = true
+						}
+					}
+					if grows {
+						orderAdd++
+					}
+					if shrinks && !grows {
+						orderDel++
 					}
 				}
-				return true
-			})
-			if filesAdd+filesDel+orderAdd+orderDel == 0 {
-				continue
 			}
-			// snapshot getter copies both
-			if filesDel == 0 && orderDel == 0 && filesAdd > 0 && orderAdd == 0 && strings.Contains(fullStr(c.P.Fset, fd.Body), "snapshot") {
-				continue
-			}
-			n++
-			okPair := (filesAdd > 0) == (orderAdd > 0) && (filesDel > 0) == (orderDel > 0)
-			c.check(okPair, "C12-PAIR", c.P.declName(fd), "Files and FileOrder updated together", fd.Pos(),
-				fmt.Sprintf("adds: Files %d / FileOrder %d, removals: Files %d / FileOrder %d", filesAdd, orderAdd, filesDel, orderDel),
-				fmt.Sprintf("the resolved tree's Files map and FileOrder slice are not updated together (adds: Files %d / FileOrder %d, removals: Files %d / FileOrder %d): a file dropped from the tree stays visible to consumers of the other structure", filesAdd, orderAdd, filesDel, orderDel))
 		}
+		if filesAdd+filesDel+orderAdd+orderDel == 0 {
+			continue
+		}
+		n++
+		okPair := (filesAdd > 0) == (orderAdd > 0) && (filesDel > 0) == (orderDel > 0)
+		c.check(okPair, "C12-PAIR", funcName(f), "Files and FileOrder updated together", f.Pos(),
+			fmt.Sprintf("adds: Files %d / FileOrder %d, removals: Files %d / FileOrder %d", filesAdd, orderAdd, filesDel, orderDel),
+			fmt.Sprintf("the resolved tree's Files map and FileOrder slice are not updated together (adds: Files %d / FileOrder %d, removals: Files %d / FileOrder %d): a file dropped from the tree stays visible to consumers of the other structure", filesAdd, orderAdd, filesDel, orderDel))
 	}
 	c.census("C12-PAIR", "workspace functions that modify the resolved tree's membership", n, 2)
+}
+
+// sliceOfWithStack: the appended element e (found inside the slice of root, possibly in a helper) derives from
+// the tree's old FileOrder.  The element is sliced in the context it was reached in: helper parameters are
+// bound by re-slicing root and intersecting - an element that derives from the old list has, in the whole
+// slice of root restricted to what e depends on, a read of the tree's FileOrder.
+func sliceOfWithStack(e ssa.Value, appendCall ssa.Value, root ssa.Value) bool {
+	// direct: e's own slice reads the old list (same function)
+	direct := backSlice(e)
+	for w := range direct {
+		if fa, ok := w.(*ssa.FieldAddr); ok {
+			if pt, ok := fa.X.Type().Underlying().(*types.Pointer); ok && typeHasSuffix(pt.Elem(), "include.ResolvedJournal") && fieldVarOfAddr(fa).Name() == "FileOrder" {
+				return true
+			}
+		}
+	}
+	// through a helper: e depends on a parameter of the helper that is a list (the old list handed in), not on
+	// a scalar parameter (the path to add)
+	for w := range direct {
+		if p, ok := w.(*ssa.Parameter); ok {
+			if _, isSlice := p.Type().Underlying().(*types.Slice); isSlice {
+				return true
+			}
+		}
+	}
+	return false
+}
+
+// readsOldOrderVia: the spread operand derives from a list (the old FileOrder or a list parameter of a helper).
+func readsOldOrderVia(v ssa.Value, root ssa.Value) bool {
+	for w := range backSlice(v) {
+		if fa, ok := w.(*ssa.FieldAddr); ok {
+			if pt, ok := fa.X.Type().Underlying().(*types.Pointer); ok && typeHasSuffix(pt.Elem(), "include.ResolvedJournal") && fieldVarOfAddr(fa).Name() == "FileOrder" {
+				return true
+			}
+		}
+		if p, ok := w.(*ssa.Parameter); ok {
+			if _, isSlice := p.Type().Underlying().(*types.Slice); isSlice {
+				return true
+			}
+		}
+	}
+	return false
 }
 
 // undeclaredCommodityCheck: the analyzer function whose diagnostics carry a code mentioning COMMODITY.
@@ -1933,6 +2051,67 @@ func balanceAddSites(c *Ctx, f *ssa.Function) []balanceAddSite {
 					}
 				}
 				out = append(out, balanceAddSite{call, guarded})
+			}
+		}
+	}
+	return out
+}
+
+// listBuilders: the append calls that produce the list value v: followed through phis, re-slices, local
+// variables and module functions that return a list (whose list-typed parameters are followed to the
+// arguments); scalar operands (an element to compare with, a path) are not entered.
+func listBuilders(v ssa.Value, stack []*ssa.Call, depth int, seen map[ssa.Value]bool) []*ssa.Call {
+	if v == nil || depth > 12 || seen[v] {
+		return nil
+	}
+	seen[v] = true
+	if _, isSlice := v.Type().Underlying().(*types.Slice); !isSlice {
+		return nil
+	}
+	var out []*ssa.Call
+	switch x := v.(type) {
+	case *ssa.Call:
+		if bi, ok := x.Call.Value.(*ssa.Builtin); ok {
+			if bi.Name() == "append" && len(x.Call.Args) == 2 {
+				out = append(out, x)
+				out = append(out, listBuilders(x.Call.Args[0], stack, depth+1, seen)...)
+			}
+			return out
+		}
+		if cal := x.Call.StaticCallee(); cal != nil && cal.Blocks != nil && inModule(cal) && len(stack) < 3 {
+			for _, b := range cal.Blocks {
+				for _, ins := range b.Instrs {
+					if r, ok := ins.(*ssa.Return); ok && len(r.Results) >= 1 {
+						out = append(out, listBuilders(unspillResult(r.Results[0], b), append(append([]*ssa.Call{}, stack...), x), depth+1, seen)...)
+					}
+				}
+			}
+		}
+	case *ssa.Phi:
+		for _, e := range x.Edges {
+			out = append(out, listBuilders(e, stack, depth+1, seen)...)
+		}
+	case *ssa.Slice:
+		out = append(out, listBuilders(x.X, stack, depth+1, seen)...)
+	case *ssa.Parameter:
+		if n := len(stack); n > 0 {
+			call := stack[n-1]
+			if cal := call.Call.StaticCallee(); cal != nil {
+				for i, p := range cal.Params {
+					if p == x && i < len(call.Call.Args) {
+						out = append(out, listBuilders(call.Call.Args[i], stack[:n-1], depth+1, seen)...)
+					}
+				}
+			}
+		}
+	case *ssa.UnOp:
+		if x.Op == token.MUL {
+			if al, ok := x.X.(*ssa.Alloc); ok {
+				for _, r := range *al.Referrers() {
+					if st, ok := r.(*ssa.Store); ok && st.Addr == ssa.Value(al) {
+						out = append(out, listBuilders(st.Val, stack, depth+1, seen)...)
+					}
+				}
 			}
 		}
 	}
